@@ -84,9 +84,11 @@ PROFILES = {
     "C01": {"quick": [CORE4, SEED2, SIZES2, SCALE, dq("mixed")], "thorough": [CORE5, SEED3, CORE3H, FINAL2, SIM, SCALE, dt("mixed"), dt("all")]},
     "C02": {"quick": [CORE3, SEED2, FAIL2, SIZES2, SCALE, dq("all", True), SUITEQ], "thorough": [CORE4, SEED3, CORE3H, SEED3H, FAILP, SIZES2, SIM, PROOF, SCALE, dt("all", True), SUITET]},
     "C03": {"quick": [CORE3, SEED2, FAIL2, PROOF, dq("all", True), SUITEQ], "thorough": [CORE4, SEED3, CORE3H, SEED3H, FAILP, SIZES2, SIM, PROOF, dt("all", True), SUITET]},
-    "C04": {"quick": [conc("own2", "{1,2}", "cQuick2", sample_every=40), conc("lend3", "{1,2,3}", "cLend2", sample_every=40), conc("from2", "{1,2}", "cFrom2", sample_every=40)],
+    "C04": {"quick": [conc("own2", "{1,2}", "cQuick2", sample_every=40), conc("lend3", "{1,2,3}", "cLend2", sample_every=40), conc("from2", "{1,2}", "cFrom2", sample_every=40),
+                      conc("own2", "{1,2}", "cQuick2", sample_every=40, profile="debug", gate="post")],
             "thorough": [conc("own2", "{1,2}", "cQuick2", sample_every=10), conc("lend3", "{1,2,3}", "cLend2", sample_every=10), conc("from2", "{1,2}", "cFrom2", sample_every=10),
-                         conc("lendfrom", "{1,2,3}", "cLendFrom", sample_every=10), conc("own3", "{1,2,3}", "cOwn3", sample_every=40), conc("deep2", "{1,2}", "cDeep2", sample_every=200, workers=14)]},
+                         conc("lendfrom", "{1,2,3}", "cLendFrom", sample_every=10), conc("own3", "{1,2,3}", "cOwn3", sample_every=40), conc("deep2", "{1,2}", "cDeep2", sample_every=200, workers=14),
+                         conc("own2", "{1,2}", "cQuick2", sample_every=10, profile="debug", gate="post"), conc("lend3", "{1,2,3}", "cLend2", sample_every=10, profile="debug", gate="post")]},
     "C05": {"quick": [FAIL2, dq("fail")], "thorough": [FAILP, SEED2, dt("fail")]},
     "C06": {"quick": [SIZES2, SCALE, dq("sizes")], "thorough": [SIZES2, SHRINK2, SCALE, dt("sizes")]},
     "C07": {"quick": [IDX1, CORE3, dq("mixed")], "thorough": [IDX1, CORE4, SEED2, dt("mixed")]},
